@@ -1382,6 +1382,16 @@ func (c *execCtx) ddlAlter(t *tokCursor) error {
 					v, _ = parseInt(tk.s)
 				}
 				q.Last, q.IsCalled = v, false
+				q.dropReservations()
+				continue
+			}
+			if t.acceptKw("cache") {
+				if tk := t.peek(); tk.kind == tNumber {
+					t.next()
+					if v, ok := parseInt(tk.s); ok == nil && v.IsInt64() {
+						q.Cache = int(v.Int64())
+					}
+				}
 				continue
 			}
 			t.next()
